@@ -9,7 +9,7 @@ EXPLANATION = (
     "Partial proof + differential exploration.  Proved in Coq for every symmetric non-negative distance function, every farthest-point "
     "order, every epsilon > 0 (also >= 1), every mini/maxi and dimension: each kept edge has value >= its length, every simplex of the "
     "sparse complex is a Rips simplex at its own value (subcomplex, never earlier), the output is closed under faces with monotone "
-    "values, the insertion radii are non-increasing.  The decisive clause of the property - the persistence diagrams of the sparse and "
+    "values (for the model that follows the simplex-tree traversal and for the level-wise one), the insertion radii are non-increasing.  The decisive clause of the property - the persistence diagrams of the sparse and "
     "of the Rips filtration are within multiplicative bottleneck distance 1/(1-epsilon) - is a theorem of the literature (Sheehy; "
     "Cavanna, Jahanseir, Sheehy) that is NOT formalised; it is kept as Definition C19_interleaving_full and MEASURED on every generated "
     "metric small enough for the certified reduction: barcodes of the C++ output and of the Rips complex are computed by the proved "
@@ -20,18 +20,20 @@ MANIFEST = dict(
          "Sparse_rips_complex + differential run of the C++ against the extracted model (whole complex with values, exact rationals) + "
          "measurement of the interleaving bound with the certified persistence oracle and a checked bottleneck matching",
     text="Unbounded Coq theorems about a Q-model of compute_sparse_graph (all branches of the edge rule, both cut-offs, mini/maxi), of the "
-         "vertex-death blocker and of the expansion with blockers: alpha >= d for every kept edge when epsilon > 0; every simplex of the "
-         "sparse complex has all pairwise distances <= its value (it is a Rips simplex and never appears earlier); the result is closed "
-         "under faces and monotone for every epsilon > 0 including epsilon >= 1 and finite mini/maxi; insertion radii of any "
-         "farthest-point order are non-increasing.  The C++ is run through both public constructors (distance matrix; points with "
+         "vertex-death blocker and of the two expansions (modelled twice: following the traversal of the simplex tree, and level by "
+         "level): alpha >= d for every kept edge when epsilon > 0; every simplex of the sparse complex has all pairwise distances <= its "
+         "value (it is a Rips simplex and never appears earlier); the result is closed under faces and monotone for every epsilon > 0 "
+         "including epsilon >= 1 (there via completeness of the flag expansion along the tree) and finite mini/maxi; insertion radii "
+         "of any farthest-point order are non-increasing and such orders exist from every start.  The C++ is run through both public constructors (distance matrix; points with "
          "Euclidean / L1 / L-infinity distance) on integer metrics with n <= 12, epsilon in {1/10,1/4,1/2,9/10,1,2}, with and without "
          "mini/maxi, dimensions 0..5, several random starting points per input, and its complete output is compared with the model "
          "(exactly for epsilon a power of two, to 2^-44 relative for 1/10 and 9/10 where the double arithmetic rounds) and checked "
          "against the specification.  The interleaving bound itself is measured, not proved.",
     note="Trusted: Coq kernel, extraction + OCaml driver (the matching SEARCH is untrusted, its result is validated by the extracted "
          "check_matching), hand-written model (validated by the differential run), g++, harness.  Not proved: the interleaving theorem; "
-         "pivot pairing = interval decomposition; the trie traversal of expansion_with_blockers is modelled level by level; the "
-         "farthest-point order is taken from the implementation (random start) and only CHECKED to be a farthest-point order.",
+         "pivot pairing = interval decomposition; the heap-based farthest-point routine is not modelled: the order is taken from the "
+         "implementation (random start) and CHECKED to be a farthest-point order; memory layout of the simplex tree is abstracted to "
+         "the set of its simplices.",
     ref="design/C19.md")
 CORRESPONDENCE = ("coq/C19_Model.v (extracted: ocaml/c19_oracle.ml) vs harness/c19_drv.cpp: every simplex of create_complex with its "
                   "filtration value, for the farthest-point order the implementation actually used; specification evaluated on the C++ output")
@@ -39,8 +41,8 @@ TRUSTED = [
     "Coq 8.16.1 kernel (coqc, full .vo build)",
     "extraction (ExtrOcamlBasic only) + OCaml 4.13.1 + ocaml/prelude.ml, ocaml/c19_oracle.ml (parsing, printing, Kuhn matching search "
     "whose result is re-checked by the extracted check_matching)",
-    "hand-written Q-model coq/C19_Model.v of Sparse_rips_complex.h (edge rule, cut-offs, blocker) and of the level-wise semantics of "
-    "Simplex_tree::expansion / expansion_with_blockers; tied to the C++ by the differential run, not by translation",
+    "hand-written Q-model coq/C19_Model.v of Sparse_rips_complex.h (edge rule, cut-offs, blocker) and of Simplex_tree::expansion / "
+    "expansion_with_blockers (traversal-following and level-wise); tied to the C++ by the differential run, not by translation",
     "harness/c19_drv.cpp (the farthest-point order is read off the implementation's own calls of the user-supplied distance), g++ 12.2",
     "literature, not formalised: sparse-Rips interleaving theorem (measured only); pivot pairing = persistence barcode",
     "IEEE double arithmetic is exact on the inputs with epsilon a power of two; for epsilon = 1/10, 9/10 values are compared to 2^-44",
@@ -279,7 +281,7 @@ def generate(rng, tier):
         pts = [[0, 0], [1, 0], [0, 1], [100, 0], [101, 0], [100, 1], [50, 80]]
         cases.append(make_case("X", matrix_of_points(pts, "X"), pts, e, None, None, 3, "boundary:clusters"))
     if thorough:
-        for i in range(8):
+        for i in range(6):
             n, dim = [(12, 2), (11, 2), (9, 3), (12, 2)][i % 4]
             e = [(1, 2), (1, 4), (9, 10), (1, 10)][(i // 2) % 4]
             if i % 2 == 0:
@@ -290,7 +292,7 @@ def generate(rng, tier):
                 c = make_case("X", matrix_of_points(pts, "X"), pts, e, None, None, dim, "big:points:X:" + st)
             c["big"] = True
             cases.append(c)
-    nrand = 2600 if thorough else 330
+    nrand = 2000 if thorough else 330
     for i in range(nrand):
         e = EPS[i % len(EPS)] if rng.random() < 0.9 else rng.choice([(1, 8), (3, 4), (7, 8), (1, 16), (4, 1), (3, 2)])
         n = rng.choice([2, 3, 4, 5, 5, 6, 6, 7, 7, 8, 8, 9, 10, 11, 12])
@@ -454,7 +456,8 @@ def evaluate(c, cpp, orc, res=None):
                 % (order, " | ".join(parts[2:])[:600]), "multiplicative bottleneck distance <= 1/(1-eps)", " | ".join(parts[2:])[:1500])
     if res is not None and flagsd["inter"] in ("1", "1x"):
         res.count("interleaving-bound measured (Z_2 and Z_3)")
-        res.count("interleaving: sparse and Rips diagrams " + ("differ (within the bound)" if flagsd["inter"] == "1x" else "coincide"))
+        res.count("interleaving eps=%d/%d: sparse and Rips diagrams %s" % (c["eps"][0], c["eps"][1],
+                  "differ (within the bound)" if flagsd["inter"] == "1x" else "coincide"))
         if len(parts) >= 4 and parts[2].split("sparse:")[1] != parts[3].split("sparse:")[1]:
             res.count("barcode differs between Z_2 and Z_3")
     return None
